@@ -31,6 +31,11 @@ pub enum WbOp {
     Push(DeltaSpec),
     /// flush; `during` are pushed while the flush is suspended in front of its put
     Flush { during: Vec<DeltaSpec> },
+    /// two overlapping flushes on the shared buffer (a background tick racing an explicit or
+    /// shutdown-path flush): flush A takes its batch and stops in front of its put, `between`
+    /// are pushed, flush B takes them and stops in front of ITS put, `during_b` are pushed, B's
+    /// put completes first, then A's
+    Overlap { between: Vec<DeltaSpec>, during_b: Vec<DeltaSpec> },
 }
 
 #[derive(Clone, Debug, Serialize, Deserialize)]
@@ -56,6 +61,8 @@ struct Outcome {
     /// number of store calls (= flushes that reached their put)
     calls: usize,
     overlapped_failures: usize,
+    /// Overlap steps executed
+    overlapping: usize,
 }
 
 fn run(case: &[WbOp], faults: &[(usize, Fault)]) -> Result<Outcome, String> {
@@ -68,6 +75,7 @@ fn run(case: &[WbOp], faults: &[(usize, Fault)]) -> Result<Outcome, String> {
     let mut accepted: Vec<ReplicationDelta> = Vec::new();
     let mut written: Vec<(String, Vec<ReplicationDelta>)> = Vec::new();
     let mut overlapped_failures = 0;
+    let mut overlapping = 0usize;
 
     let push = |wb: &WriteBuffer<TraceObjectStore>,
                     s: &DeltaSpec,
@@ -162,6 +170,70 @@ fn run(case: &[WbOp], faults: &[(usize, Fault)]) -> Result<Outcome, String> {
         match op {
             WbOp::Push(s) => push(&wb, s, &mut pending, &mut accepted)?,
             WbOp::Flush { during } => flush(during, &mut pending, &mut accepted, &mut written, i)?,
+            WbOp::Overlap { between, during_b } => {
+                let batch_a: Vec<ReplicationDelta> = std::mem::take(&mut pending);
+                let mut fut_a = Box::pin(wb.flush());
+                let first = poll_once(fut_a.as_mut());
+                let res_a = match first {
+                    Poll::Ready(r) => Some(r), // empty buffer: A made no store call
+                    Poll::Pending => None,
+                };
+                for s in between {
+                    push(&wb, s, &mut pending, &mut accepted)?;
+                }
+                let batch_b: Vec<ReplicationDelta> = std::mem::take(&mut pending);
+                let mut fut_b = Box::pin(wb.flush());
+                let res_b = match poll_once(fut_b.as_mut()) {
+                    Poll::Ready(r) => r,
+                    Poll::Pending => {
+                        for s in during_b {
+                            push(&wb, s, &mut pending, &mut accepted)?;
+                        }
+                        match poll_once(fut_b.as_mut()) {
+                            Poll::Ready(r) => r,
+                            Poll::Pending => return Err(format!("step {}: the second flush() suspended a second time", i)),
+                        }
+                    }
+                };
+                drop(fut_b);
+                let res_a = match res_a {
+                    Some(r) => r,
+                    None => match poll_once(fut_a.as_mut()) {
+                        Poll::Ready(r) => r,
+                        Poll::Pending => return Err(format!("step {}: the first flush() suspended a second time", i)),
+                    },
+                };
+                drop(fut_a);
+                // B's outcome is known first, then A's: a failed batch goes back in front of
+                // what is pending at that moment
+                for (res, batch, who) in [(res_b, batch_b, "second"), (res_a, batch_a, "first")] {
+                    match res {
+                        Ok(Some(key)) => {
+                            if batch.is_empty() {
+                                return Err(format!("step {}: the {} of two overlapping flushes wrote {} from an empty buffer", i, who, key));
+                            }
+                            written.push((key, batch));
+                        }
+                        Ok(None) => {
+                            if !batch.is_empty() {
+                                return Err(format!("step {}: the {} of two overlapping flushes returned Ok(None) with {} updates taken", i, who, batch.len()));
+                            }
+                        }
+                        Err(_) => {
+                            let mut all = batch;
+                            all.append(&mut pending);
+                            pending = all;
+                        }
+                    }
+                }
+                if wb.pending_count() != pending.len() {
+                    return Err(format!(
+                        "step {}: after two overlapping flushes pending_count() = {} but {} accepted updates are neither in a successfully written segment nor taken by a flush in flight",
+                        i, wb.pending_count(), pending.len()
+                    ));
+                }
+                overlapping += 1;
+            }
         }
     }
     // closing flushes: transient failures are over after faults.len() attempts
@@ -213,6 +285,7 @@ fn run(case: &[WbOp], faults: &[(usize, Fault)]) -> Result<Outcome, String> {
     Ok(Outcome {
         calls: store.call_count(),
         overlapped_failures,
+        overlapping,
     })
 }
 
@@ -223,6 +296,7 @@ pub fn check(case: &WbCase, ctx: &mut CaseCtx<'_>) -> Result<(), String> {
             match o {
                 WbOp::Push(s) => Box::new(std::iter::once(s)),
                 WbOp::Flush { during } => Box::new(during.iter_mut()),
+                WbOp::Overlap { between, during_b } => Box::new(between.iter_mut().chain(during_b.iter_mut())),
             }
         }),
         false,
@@ -248,6 +322,9 @@ pub fn check(case: &WbCase, ctx: &mut CaseCtx<'_>) -> Result<(), String> {
         }
     }
     ctx.add_evaluations(evals);
+    if base.overlapping > 0 {
+        ctx.label("two_overlapping_flushes");
+    }
     if overlapped > 0 {
         // NT: some flush failed while updates had been pushed during its store call
         ctx.nontrivial(&serde_json::to_string(&ops).unwrap_or_default());
